@@ -1494,7 +1494,8 @@ def rand_collection_history(rng, impl):
             op = [rng.choice(("copy", "deepcopy")) if impl == "old" else "deepcopy", i]
         elif r < 0.82 and impl == "new":
             fresh += 1
-            op = ["add_seqs", i, {f"added{fresh}": "".join(rng.choice(canon_) for _ in range(rng.randint(1, 6)))}]
+            # symbols of the moltype the collection has *now* (it may have been converted)
+            op = ["add_seqs", i, {f"added{fresh}": "".join(rng.choice(SYMS[m.mt][0]) for _ in range(rng.randint(1, 6)))}]
         elif r < 0.91:
             op = ["member_rc", i, rng.choice(m.names)]
         else:
